@@ -49,20 +49,28 @@ func ReadHeaderAt(at io.ReaderAt, maxReadBytes uint64) (*CarHeader, error) {
 }
 
 func ReadHeader(r io.Reader, maxReadBytes uint64) (*CarHeader, error) {
+	ch, _, err := ReadHeaderAndSize(r, maxReadBytes)
+	return ch, err
+}
+
+// ReadHeaderAndSize is ReadHeader that also reports how many bytes the header occupies in r, length
+// prefix included. That is not necessarily HeaderSize of the decoded header: the decoder accepts
+// encodings that a re-encoding does not reproduce byte for byte.
+func ReadHeaderAndSize(r io.Reader, maxReadBytes uint64) (*CarHeader, uint64, error) {
 	hb, err := util.LdRead(r, false, maxReadBytes)
 	if err != nil {
 		if err == util.ErrSectionTooLarge {
 			err = util.ErrHeaderTooLarge
 		}
-		return nil, err
+		return nil, 0, err
 	}
 
 	var ch CarHeader
 	if err := cbor.DecodeInto(hb, &ch); err != nil {
-		return nil, fmt.Errorf("invalid header: %v", err)
+		return nil, 0, fmt.Errorf("invalid header: %v", err)
 	}
 
-	return &ch, nil
+	return &ch, util.LdSize(hb), nil
 }
 
 func WriteHeader(h *CarHeader, w io.Writer) error {
